@@ -32,6 +32,7 @@ def check(ctx, tier):
     siblings(ctx, tk)
     like_and_add(ctx, tk)
     fill_values(ctx, tk)
+    values_state(ctx, tk)
     fs = [f for q, f in ctx.program.funcs.items() if q.startswith("hashtable.")]
     hazards.h2_argmax_of_mask(ctx, tk, "C11.b", fs)
     W.report(ctx, tk, "C11.j", fs)
@@ -363,7 +364,20 @@ def like_and_add(ctx, tk):
             z = [x for x in walk(tm) if x.k == "call" and call_name(x) == "zip" and len(x.a[1]) == 2]
             if z:
                 a, b = z[0].a[1]
-                names = [(attr_chain(x.a[0].a[0]) or ("",))[-1] if x.k == "call" and x.a[0].k == "attr" else None for x in (a, b)]
+                names = []
+                for x in (a, b):
+                    nm = (attr_chain(x.a[0].a[0]) or ("",))[-1] if x.k == "call" and x.a[0].k == "attr" else None
+                    if x.k == "call" and nm not in ("_keys", "_values"):
+                        # a helper of the table: which state does it read?
+                        for g2 in tk.R.resolve_call(x, ha) or []:
+                            src2 = {y.attr for y in ast.walk(g2.node) if isinstance(y, ast.Attribute) and y.attr in ("_keys", "_values") and isinstance(y.ctx, ast.Load)
+                                    and not (isinstance(y.value, ast.Name) and False)}
+                            rets = [ast.unparse(r.value) for r in ast.walk(g2.node) if isinstance(r, ast.Return) and r.value is not None]
+                            if rets and all("_values" in r_ for r_ in rets):
+                                nm = "_values"
+                            elif rets and all("_keys" in r_ and "_values" not in r_ for r_ in rets):
+                                nm = "_keys"
+                    names.append(nm)
                 ctx.decide("C11.h", h, "items are (key, value) pairs in that order", True if names == ["_keys", "_values"] else (False if names == ["_values", "_keys"] else None),
                            "pairs are %s" % names, node=r.ast, engine="E5")
 
@@ -393,3 +407,55 @@ def fill_values(ctx, tk):
             guarded = any(t.k == "call" and call_name(t) == "isinstance" and truth for t, truth, _ in facts_at(fa, n))
             ctx.decide("C11.h", f, "materialisation happens only while the values are still a scalar", True if guarded else False,
                        "existing per-key values would be overwritten", node=n.ast, key="guard", engine="E1")
+
+
+def values_state(ctx, tk):
+    """typestate of HashTable._values: a single scalar ('all keys share it') until materialised.  Array operations on
+    it (ravel / subscript / size / fill) are only reached when it is known not to be a scalar"""
+    for q, f in ctx.program.funcs.items():
+        if not q.startswith("hashtable.") or f.cls is None or not f.params:
+            continue
+        fa = ctx.fa(f)
+        selfn = f.params[0]
+        fills = [n for n, c in find_calls(fa, lambda c: c.a[0].k == "attr" and c.a[0].a[1] == "_fill_values")]
+        for n in fa.cfg.stmts():
+            uses = []
+            for e in _exprs(n):
+                for sub in ast.walk(e):
+                    if isinstance(sub, ast.Attribute) and sub.attr in ("ravel", "size", "fill", "dtype", "_shape") and isinstance(sub.value, ast.Attribute) and sub.value.attr == "_values" \
+                            and isinstance(sub.value.value, ast.Name) and sub.value.value.id == selfn:
+                        uses.append(sub)
+                    if isinstance(sub, ast.Subscript) and isinstance(sub.value, ast.Attribute) and sub.value.attr == "_values" and isinstance(sub.value.value, ast.Name) \
+                            and sub.value.value.id == selfn:
+                        uses.append(sub)
+            if n.kind == "stmt" and isinstance(n.ast, (ast.Assign, ast.AugAssign)):
+                tg = n.ast.targets[0] if isinstance(n.ast, ast.Assign) else n.ast.target
+                if isinstance(tg, ast.Subscript) and isinstance(tg.value, ast.Attribute) and tg.value.attr == "_values":
+                    uses.append(tg)
+            for u in uses:
+                facts = facts_at(fa, n)
+                known_array = any(t.k == "call" and call_name(t) == "isinstance" and not truth and t.a[1] and (attr_chain(t.a[1][0]) or ("",))[-1] == "_values"
+                                  and any(y.k == "global" and y.a[0] == "Number" for y in walk(t.a[1][1])) for t, truth, _ in facts) or \
+                    any(t.k == "call" and call_name(t) == "isinstance" and truth and t.a[1] and (attr_chain(t.a[1][0]) or ("",))[-1] == "_values"
+                        and any(y.k == "global" and y.a[0] in ("RaggedArray", "ndarray") for y in walk(t.a[1][1])) for t, truth, _ in facts)
+                # inside the conditional expression  X if isinstance(self._values, Number) else self._values.dtype
+                tern = _ternary_guard(n, u)
+                filled = bool(fills) and fa.cfg.must_pass(fills, n)
+                ctx.decide("C11.e", f, "array operations on the values are reached only when the values are not (any longer) a single scalar",
+                           True if (known_array or filled or tern) else False,
+                           "`%s` runs while the table may still hold one scalar for all keys (HashTable(keys, 0), np.zeros_like(table), a sum of such tables): AttributeError"
+                           % ast.unparse(u), node=u, engine="E1")
+
+
+def _ternary_guard(n, u):
+    for sub in ast.walk(n.ast) if n.ast is not None else []:
+        if isinstance(sub, ast.IfExp) and any(x is u for x in ast.walk(sub.orelse)):
+            t = sub.test
+            if isinstance(t, ast.Call) and isinstance(t.func, ast.Name) and t.func.id == "isinstance" and "Number" in ast.unparse(t.args[1]) and "_values" in ast.unparse(t.args[0]):
+                return True
+    return False
+
+
+def _exprs(n):
+    from ..resolve import _exprs_of_node
+    return _exprs_of_node(n)
